@@ -160,6 +160,13 @@ def dataset_stream(ex, n, exhaustive):
         for D in corpus.fixtures(ob.REPO):
             ex.res.count('corpus_fixtures')
             yield D
+        # the datasets proved consistent in Lean (Witness.lean): non-vacuity witnesses of the theorems' hypotheses,
+        # here run through pyham like any generated case (histories, echoes and oracles included)
+        for D in corpus.lean_witnesses(core.DRIVER):
+            ex.res.count('lean_witness_datasets')
+            if D.meta.get('witness') == 'simpleEx':
+                ex.res.count('witness_simpleEx_equals_repo_fixture', 0 if corpus.witness_matches_fixture(D, ob.REPO) else 1)
+            yield D
     if exhaustive:
         k, shards = [int(x) for x in os.environ.get('VERIF_SHARD', '0/1').split('/')]
         for i, D in enumerate(gen.exhaustive_datasets(5, 2, naming='own')):
@@ -264,8 +271,8 @@ def explore_maps(prop, tier, seed, n_quick, mode):
                 ex.res.count('pairs_nonadjacent', sum(1 for a, d in pairs if len(d) - len(a) > 1))
                 bad = orc.c05(D, h, pairs) if mode == 'C05' else orc.c06(D, h, pairs)
                 for a, d in pairs:
-                    m = h.compare_genomes_vertically(gs[a], gs[d]).map
-                    o.put('vmap', ob.hmapS(m))
+                    v = h.compare_genomes_vertically(gs[a], gs[d]); m = v.map
+                    o.put('vmap', ob.vmapS(v))
                     o.put('upmap', ob.upmapS(m))
                     queries.append('(v %s %s)' % (tax_q(d), tax_q(a)) if ex.rng.random() < 0.5 else '(v %s %s)' % (tax_q(a), tax_q(d)))
             elif mode == 'C07':
@@ -280,9 +287,9 @@ def explore_maps(prop, tier, seed, n_quick, mode):
                         if (x, y) in done:
                             continue
                         done.add((x, y))
-                        m = h.compare_genomes_vertically(gs[x], gs[y]).map
+                        v = h.compare_genomes_vertically(gs[x], gs[y]); m = v.map
                         o.put('upmap', ob.upmapS(m))
-                        o.put('vmap', ob.hmapS(m))
+                        o.put('vmap', ob.vmapS(v))
                         queries.append('(v %s %s)' % (tax_q(x), tax_q(y)))
             else:  # C08
                 gs = genomes_of(h)
@@ -306,8 +313,8 @@ def explore_maps(prop, tier, seed, n_quick, mode):
                             ';'.join(sorted(nodekey(k) + '@' + '+'.join(sorted(taxS(pathof(gg.taxon)) + '>' + ','.join(sorted(nodekey(z) for z in zs)) for gg, zs in v.items())) for k, v in lm.get_duplicated().items()))))
                         queries.append('(l %s %s)' % (tax_q(g1), tax_q(g2)))
                         try:
-                            m = h.compare_genomes_vertically(gs[g1], gs[g2]).map
-                            o.put('vmap', ob.hmapS(m)); o.put('upmap', ob.upmapS(m))
+                            v = h.compare_genomes_vertically(gs[g1], gs[g2]); m = v.map
+                            o.put('vmap', ob.vmapS(v)); o.put('upmap', ob.upmapS(m))
                         except Exception as e:      # noqa
                             o.put('verr', '%s,%s=%s' % (taxS(g1), taxS(g2), ob.err_name(e)))
                         queries.append('(v %s %s)' % (tax_q(g1), tax_q(g2)))
